@@ -28,7 +28,7 @@ ASSUMPTIONS = [
     "vlib/kgspec.py reproduces the KlattGrid / point-object text layouts of the repository's Praat-written fixtures (trusted base)",
     "-0.0 and 0.0 are the same value",
 ]
-REQUIRED_CLASSES = ["klatt_synthetic:sub_tier_modified_directly_after_save", "klatt_synthetic:ten_or_more_formants", "klatt_synthetic:last_subtier_has_points", "klatt_synthetic:one_digit_value", "klatt_synthetic:modified",
+REQUIRED_CLASSES = ["klatt_constructed:shared_point_list", "klatt_synthetic:sub_tier_modified_directly_after_save", "klatt_synthetic:ten_or_more_formants", "klatt_synthetic:last_subtier_has_points", "klatt_synthetic:one_digit_value", "klatt_synthetic:modified",
                     "point_objects:zero_points", "point_objects:long", "klatt_fixture:fixture"]
 
 
@@ -343,6 +343,90 @@ def klatt_cases(draw):
     return {"kg": {"xmin": 0.0, "xmax": hi, "sections": secs}, "trailing_blank": draw(st.integers(0, 3)) > 0, "mods": mods}
 
 
+def _kg_paths(kg):
+    from praatio.data_classes.klattgrid import KlattContainerTier
+
+    out = {}
+    for name in kg.tierNames:
+        tier = kg.getTier(name)
+        if isinstance(tier, KlattContainerTier):
+            for kit_name in tier.tierNameList:
+                kit = tier.tierDict[kit_name]
+                for sub in kit.tierNameList:
+                    out[f"{name}/{kit_name}/{sub}"] = [(float(t), float(v)) for t, v in kit.tierDict[sub].entries]
+        else:
+            out[name] = [(float(t), float(v)) for t, v in tier.entries]
+    return out
+
+
+def run_constructed(case):
+    """A KlattGrid assembled with the public classes (not read from a file); the point lists the caller hands
+    in may be one and the same list object for several tiers."""
+    from praatio import klattgrid
+    from praatio.data_classes.klattgrid import Klattgrid, KlattPointTier, KlattContainerTier, KlattIntermediateTier, KlattSubPointTier
+
+    hi = case["xmax"]
+    template = [tuple(x) for x in case["points"]]
+    given = []
+
+    def pts():
+        lst = template_list if case["share"] else list(template)
+        given.append(lst)
+        return lst
+
+    template_list = list(template)
+    kg = Klattgrid()
+    kg.addTier(KlattPointTier("pitch", pts(), 0, hi))
+    kg.addTier(KlattPointTier("voicingAmplitude", pts(), 0, hi))
+    container = KlattContainerTier("oral_formants")
+    for kind in ("formants", "bandwidths"):
+        kit = KlattIntermediateTier(kind)
+        for i in range(1, case["n"] + 1):
+            kit.addTier(KlattSubPointTier(f"{kind} [{i}]", pts(), 0, hi))
+        container.addTier(kit)
+    kg.addTier(container)
+    exp = _kg_paths(kg)
+    want0 = [(float(t), float(v)) for t, v in template]
+    if any(v != want0 for v in exp.values()):
+        raise Violation("constructed-differs", f"a tier does not hold the points it was built from: {exp}")
+    for target, fname in case["mods"]:
+        f = MODS[fname]
+        if "/" in target:
+            kg.getTier("oral_formants").modifySubtiers(target.split("/")[1], f)
+            hit = [k for k in exp if k.startswith(target + "/")]
+        else:
+            kg.getTier(target).modifyValues(f)
+            hit = [target]
+        for k in hit:
+            exp[k] = [(t, float(f(v))) for t, v in exp[k]]
+        got = _kg_paths(kg)
+        for k in exp:
+            if [(repr(a), repr(b)) for a, b in got[k]] != [(repr(a), repr(b)) for a, b in exp[k]]:
+                raise Violation("modify-not-exactly-once" if k in hit else "other-tier-touched",
+                                f"after {fname} on {target}: tier {k} holds {got[k]}, expected {exp[k]} (share={case['share']})")
+    if any([tuple(x) for x in lst] != template for lst in given):
+        raise Violation("argument-mutated", "a point list handed to a tier constructor was changed")
+    fn = os.path.join(tmpdir(), "c19_built.KlattGrid")
+    kg.save(fn)
+    back = _kg_paths(klattgrid.openKlattgrid(fn))
+    if sorted(back) != sorted(exp):
+        raise Violation("hierarchy", f"reopened: {sorted(back)} != {sorted(exp)}")
+    for k in exp:
+        if [(repr(a), repr(b)) for a, b in back[k]] != [(repr(a), repr(b)) for a, b in exp[k]]:
+            raise Violation("roundtrip-values", f"tier {k} reopened as {back[k]}, expected {exp[k]}")
+    cl = ["constructed"] + (["shared_point_list"] if case["share"] else []) + (["modified"] if case["mods"] else [])
+    return {"classes": cl, "nontrivial": bool(case["mods"]) and bool(template)}
+
+
+@st.composite
+def constructed_cases(draw):
+    hi = draw(st.sampled_from([1.0, 2.5, 0.75]))
+    pts = draw(point_list(hi, 4))
+    targets = ["pitch", "voicingAmplitude", "oral_formants/formants", "oral_formants/bandwidths"]
+    return {"xmax": hi, "points": pts, "n": draw(st.integers(1, 4)), "share": draw(st.booleans()),
+            "mods": draw(st.lists(st.tuples(st.sampled_from(targets), st.sampled_from(MOD_NAMES)).map(list), max_size=3))}
+
+
 @st.composite
 def fixture_cases(draw):
     targets = ["pitch", "voicingAmplitude", "oral_formants/formants", "oral_formants/bandwidths", "gain", "nasal_formants/formants"]
@@ -366,6 +450,8 @@ def po_cases(draw):
 
 CHECKS = [
     Check("klatt_synthetic", run_synthetic, strategy=lambda tier: klatt_cases(), quick_n=120, thorough_n=3000, fuzz_runs=3000),
+    Check("klatt_constructed", run_constructed, strategy=lambda tier: constructed_cases(), quick_n=200, thorough_n=4000,
+          doc="KlattGrids assembled with the public classes, point lists possibly shared between tiers"),
     Check("klatt_fixture", run_fixture, strategy=lambda tier: fixture_cases(), quick_n=4, thorough_n=20,
           doc="the repository's reference KlattGrid, with generated modifications"),
     Check("point_objects", run_point_object, strategy=lambda tier: po_cases(), quick_n=500, thorough_n=12000),
